@@ -1,7 +1,8 @@
 (* C03 proofs, part 10c: the relation behind inline_fragment_selection_merging, restricted to merges
    that keep the order of the response:
      - an inline fragment absorbs later fragments (same condition, directives that include/exclude
-       alike) that FOLLOW IT IMMEDIATELY;
+       alike) as long as everything that stands before the last absorbed one is either absorbed too or
+       an inline fragment that is never entered where the absorbing one is (e.g. on another object type);
      - a field absorbs later fields of the same name and response key (directives that include/
        exclude alike) as long as everything that stands before the last absorbed one is either
        absorbed too or a field with another response key or without sub-selections.
@@ -20,6 +21,7 @@ Definition OrdT (k : name) (tr : list (bool * selection)) : Prop :=
                    Forall (fun p => fst p = true \/ okfield k (snd p)) pre.
 
 Section MRel.
+  Variable S : schema.
   Variable vars : list (bytes * json).
 
   Definition absorbedF (a : option name) (n : name) (ds : list directive) (x : selection) : Prop :=
@@ -30,13 +32,25 @@ Section MRel.
   Definition absorbedI (c : option name) (ds : list directive) (x : selection) : Prop :=
     match x with SInline cx dsx _ => cx = c /\ included vars dsx = included vars ds | _ => False end.
 
+  (* [y] is an inline fragment that is skipped at every runtime type at which a fragment on [c] is entered *)
+  Definition disjI (c : option name) (y : selection) : Prop :=
+    match y with
+    | SInline c2 ds2 _ => forall objty, inl_gate S vars objty c [] = GEnter -> inl_gate S vars objty c2 ds2 = GSkip
+    | _ => False
+    end.
+  Definition OrdI (c : option name) (tr : list (bool * selection)) : Prop :=
+    exists pre post, tr = pre ++ post /\ Forall (fun p => fst p = false) post /\
+                     Forall (fun p => fst p = true \/ disjI c (snd p)) pre.
+
   Inductive mrel : list selection -> list selection -> Prop :=
   | mr_nil : mrel [] []
   | mr_spread : forall n ds l l', mrel l l' -> mrel (SSpread n ds :: l) (SSpread n ds :: l')
-  | mr_inl : forall c ds sub xs rest sub' l',
-      Forall (absorbedI c ds) xs ->
-      mrel (sub ++ flat_map sel_subs xs) sub' -> mrel rest l' ->
-      mrel (SInline c ds sub :: xs ++ rest) (SInline c ds sub' :: l')
+  | mr_inl : forall c ds sub tr sub' l',
+      Forall (fun p => fst p = true -> absorbedI c ds (snd p)) tr ->
+      OrdI c tr ->
+      mrel (sub ++ flat_map sel_subs (sel_true tr)) sub' ->
+      mrel (sel_false tr) l' ->
+      mrel (SInline c ds sub :: map snd tr) (SInline c ds sub' :: l')
   | mr_fld : forall a n args ds sub tr sub' l',
       Forall (fun p => fst p = true -> absorbedF a n ds (snd p)) tr ->
       OrdT (response_name a n) tr ->
@@ -61,11 +75,20 @@ Section MRel.
   Lemma mrel_app : forall a a', mrel a a' -> forall b b', mrel b b' -> mrel (a ++ b) (a' ++ b').
   Proof.
     intros x x' H.
-    induction H as [|n ds l l' Hl IHl|c ds sub xs rest sub' l' Hxs Hsub IHsub Hl IHl
+    induction H as [|n ds l l' Hl IHl|c ds sub tr sub' l' Htr Hord Hsub IHsub Hl IHl
                     |a n args ds sub tr sub' l' Htr Hord Hsub IHsub Hl IHl]; intros b b' Hb; cbn [app].
     - exact Hb.
     - apply mr_spread. apply IHl. exact Hb.
-    - rewrite <- app_assoc. apply mr_inl; [exact Hxs|exact Hsub|apply IHl; exact Hb].
+    - replace (map snd tr ++ b) with (map snd (tr ++ map (pair false) b)) by (rewrite map_app, map_snd_pair; reflexivity).
+      apply mr_inl.
+      + apply Forall_app. split; [exact Htr|]. apply Forall_forall. intros p Hp. apply in_map_iff in Hp.
+        destruct Hp as [y [<- _]]. cbn. discriminate.
+      + destruct Hord as [pre [post [E [Hpost Hpre]]]]. exists pre, (post ++ map (pair false) b).
+        split; [rewrite E, app_assoc; reflexivity|]. split; [|exact Hpre].
+        apply Forall_app. split; [exact Hpost|]. apply Forall_forall. intros p Hp. apply in_map_iff in Hp.
+        destruct Hp as [y [<- _]]. reflexivity.
+      + rewrite sel_true_app_false. exact Hsub.
+      + rewrite sel_false_app_false. apply IHl. exact Hb.
     - replace (map snd tr ++ b) with (map snd (tr ++ map (pair false) b)) by (rewrite map_app, map_snd_pair; reflexivity).
       apply mr_fld.
       + apply Forall_app. split; [exact Htr|]. apply Forall_forall. intros p Hp. apply in_map_iff in Hp.
